@@ -181,6 +181,16 @@ def real_models():
     out.append(("skyride", [
         {"id": "m", "type": "PiecewiseConstantCoalescentModel", "theta": P("theta", [2.0, 1.0, 3.0]),
          "times": [0.0, 0.0, 0.5, 0.8, 1.1, 1.9, 2.5], "events": [1, 1, 1, 0, 1, 0, 0]}], "m", {"theta": "pos"}))
+    # models with a second demographic parameter: each of them batched alone must still be seen by the sample shape
+    out.append(("exponential-coalescent", [
+        {"id": "m", "type": "ExponentialCoalescentModel", "theta": P("theta", [2.0]), "growth": P("growth", [0.4]),
+         "times": [0.0, 0.0, 0.5, 0.8, 1.1, 1.9, 2.5], "events": [1, 1, 1, 0, 1, 0, 0]}], "m", {"theta": "pos", "growth": "real"}))
+    out.append(("piecewise-exponential", [
+        {"id": "m", "type": "PiecewiseExponentialCoalescentGridModel", "theta": P("theta", [2.0, 1.0, 3.0]), "growth": P("growth", [0.4, -0.2, 0.3]),
+         "grid": [1.0, 2.0], "times": [0.0, 0.0, 0.5, 0.8, 1.1, 1.9, 2.5], "events": [1, 1, 1, 0, 1, 0, 0]}], "m", {"theta": "pos", "growth": "real"}))
+    out.append(("piecewise-linear", [
+        {"id": "m", "type": "PiecewiseLinearCoalescentGridModel", "theta": P("theta", [2.0, 1.0, 3.0]),
+         "grid": [1.0, 2.0], "times": [0.0, 0.0, 0.5, 0.8, 1.1, 1.9, 2.5], "events": [1, 1, 1, 0, 1, 0, 0]}], "m", {"theta": "pos"}))
     ev = zoo.evo_args("t4.fa", "t4.nwk")
     docsr = zoo.cli_json(["advi"] + ev + ["-m", "JC69", "--clock", "strict", "--coalescent", "skyride"])
     out.append(("skyride-on-tree", docsr, "coalescent", {"coalescent.theta.log": "real", "tree.ratios.unres": "real", "tree.root_height.unshifted.unres": "real"}))
@@ -257,6 +267,27 @@ def check_real_model(ctx: Ctx, name, doc, target, domains, rnd, tier):
                 if len(ctx.cov["raised_samples"]) < 8:
                     ctx.cov["raised_samples"].append(f"{name} shape {shape} batched {list(sub)}: {type(e).__name__}: {str(e)[:70]}")
                 continue
+            # the same model as a component of a joint distribution: the joint sums over what the component's sample_shape does not
+            # claim, so a model that forgets one of its inputs when it infers the sample shape mixes the samples there and only there
+            try:
+                from torchtree.distributions.joint_distribution import JointDistributionModel
+                if not isinstance(dic[target], JointDistributionModel):
+                    with torch.no_grad():
+                        gj = JointDistributionModel("verif.joint", [dic[target]])()
+                    ctx.add("wrapped_in_joint")
+                    if gj.numel() != nsamp:
+                        ctx.violation(f"C10:{name}:in-joint:shape:{len(shape)}d:{subset_class(name, sub)}",
+                                      f"{name} as the only component of a JointDistributionModel: batched {list(sub)} with sample shape {shape} returns shape "
+                                      f"{list(gj.shape)} (the model alone returns {list(got.shape)}, its sample_shape is {list(dic[target].sample_shape)})",
+                                      {"model": name, "shape": shape, "batched": list(sub)})
+                        continue
+                    if got.numel() == nsamp and not torch.allclose(gj.reshape(-1).double(), got.reshape(-1).double(), rtol=1e-10, atol=1e-12):
+                        ctx.violation(f"C10:{name}:in-joint:value:{len(shape)}d:{subset_class(name, sub)}",
+                                      f"{name} as the only component of a JointDistributionModel: batched {list(sub)} with sample shape {shape} gives "
+                                      f"{gj.reshape(-1).tolist()[:4]}, the model alone {got.reshape(-1).tolist()[:4]}", {"model": name, "shape": shape, "batched": list(sub)})
+                        continue
+            except Exception as e:
+                ctx.add("joint_wrap_raised")
             got = got.reshape(-1) if got.numel() == nsamp else got.reshape(nsamp, -1).sum(-1) if got.numel() % nsamp == 0 and got.shape[: len(shape)] == torch.Size(shape) else got
             if got.numel() != nsamp:
                 ctx.violation(f"C10:{name}:shape:{len(shape)}d:{subset_class(name, sub)}", f"{name}: batched {list(sub)} with sample shape {shape} returns shape {list(got.shape)}",
